@@ -42,6 +42,29 @@ type Plain struct {
 	Format  string `json:"format"` // uri | uripost | raw | jsonline | grpcjson
 	Entries int    `json:"entries"`
 	Preload bool   `json:"preload,omitempty"`
+	// Array (jsonline only): the file is one JSON array; its decoded ammo are kept by the decoder and served again every pass.
+	Array bool `json:"json_array,omitempty"`
+	// DateHeader: "" = no middleware; "default" = the built-in `header/date` middleware as it is; otherwise its headerName.
+	// A middleware writes into the request an instance acquired, i.e. into whatever that request shares with the decoded ammo.
+	DateHeader string `json:"date_middleware,omitempty"`
+	// HostHeader (uri / uripost): the file carries a `[Host: ..]` directive (raw and http/json entries always name a host).
+	HostHeader bool `json:"host_header,omitempty"`
+}
+
+// redelivered: the same decoded ammo object is handed out more than once (to different instances).
+func (p *Plain) redelivered(shots int) bool {
+	return p != nil && p.Format != "grpcjson" && (p.Preload || (p.Format == "jsonline" && p.Array)) && shots > p.Entries
+}
+
+// dateHeaderName is the header the configured middleware stamps ("" = no middleware).
+func (p *Plain) dateHeaderName() string {
+	switch p.DateHeader {
+	case "":
+		return ""
+	case "default":
+		return "Date"
+	}
+	return p.DateHeader
 }
 
 // Scen describes a generated scenario (http/scenario: auth -> use(n); grpc/scenario: auth -> list -> order(n)).
@@ -67,7 +90,14 @@ type Scen struct {
 	Repeat        int    `json:"repeat"`              // follow-up step is `name(Repeat)`
 	Scenarios     int    `json:"scenarios"`           // scenarios (different weights) sharing the same step definitions
 	SleepMs       int    `json:"sleep_ms,omitempty"`
+	// FailEvery k > 0: the target gives every k-th invocation (token number divisible by k) an answer at step FailAt that a
+	// postprocessor of that step rejects at run time, so the step fails and the rest of the invocation is dropped.
+	FailEvery int    `json:"unsatisfying_answer_every,omitempty"`
+	FailAt    string `json:"unsatisfying_answer_at,omitempty"`   // http: auth | use; grpc: auth | list | order
+	FailKind  string `json:"unsatisfying_answer_kind,omitempty"` // http: body | status | header | notjson; grpc: payload
 }
+
+func (s *Scen) failsAt(step string) bool { return s.FailEvery > 0 && s.FailAt == step }
 
 func (s *Scen) usesRandString() bool { return s.FnRandString || s.PreRandString }
 func (s *Scen) usesRandIter() bool   { return s.Index == "rand" || s.RespIndex == "rand" }
@@ -86,6 +116,31 @@ func (c Case) sharedObjects() []string {
 			out = append(out, "http_preloaded_ammo", "http_fmt_"+p.Format)
 		default:
 			out = append(out, "http_streamed_ammo", "http_fmt_"+p.Format)
+		}
+		if p.Format != "grpcjson" {
+			re := p.redelivered(c.Shots)
+			if p.Array {
+				out = append(out, "http_json_array")
+			}
+			if re {
+				out = append(out, "http_ammo_redelivered")
+			}
+			if p.HostHeader {
+				out = append(out, "http_host_header_in_file")
+			}
+			if p.DateHeader != "" {
+				out = append(out, "http_date_middleware")
+				if p.DateHeader != "default" {
+					out = append(out, "http_date_middleware_custom_header")
+				}
+				if re {
+					out = append(out, "http_date_middleware_redelivered")
+					// request headers are built from the ammo's own map only (no Host entry to split off)
+					if p.Format == "jsonline" || ((p.Format == "uri" || p.Format == "uripost") && !p.HostHeader) {
+						out = append(out, "http_date_middleware_redelivered_no_host_header")
+					}
+				}
+			}
 		}
 	}
 	if s := c.Scen; s != nil {
@@ -121,6 +176,14 @@ func (c Case) sharedObjects() []string {
 		add(s.Templater != "html", "templater_text")
 		add(s.Scenarios > 1, "weighted_scenarios")
 		add(s.Repeat > 1, "repeated_step")
+		if s.FailEvery > 0 {
+			add(true, "post_fails")
+			add(true, "post_fails_at_"+s.FailAt)
+			add(true, "post_fails_"+s.FailKind)
+			add(s.FailEvery == 1, "post_fails_always")
+			add(s.FailEvery > 1, "post_fails_sometimes")
+			add(true, "post_fails_agg_"+c.Agg)
+		}
 	}
 	sort.Strings(out)
 	return out
@@ -159,7 +222,38 @@ func genScen(t *rapid.T, grpc bool) *Scen {
 	s.Repeat = rapid.IntRange(1, 3).Draw(t, "repeat")
 	s.Scenarios = rapid.IntRange(1, 3).Draw(t, "scenarios")
 	s.SleepMs = rapid.SampledFrom([]int{0, 0, 1, 2}).Draw(t, "sleepMs")
+	// answers that a postprocessor rejects at run time: never, for every invocation, or for every 2nd..4th
+	s.FailEvery = rapid.SampledFrom([]int{0, 0, 0, 1, 2, 2, 3, 4}).Draw(t, "failEvery")
+	if s.FailEvery > 0 {
+		if grpc {
+			s.FailAt = rapid.SampledFrom([]string{"auth", "list", "order"}).Draw(t, "failAt")
+			s.FailKind = "payload"
+		} else {
+			s.FailAt = rapid.SampledFrom([]string{"auth", "use"}).Draw(t, "failAt")
+			s.FailKind = rapid.SampledFrom([]string{"body", "status", "header", "notjson"}).Draw(t, "failKind")
+		}
+	}
+	s.normalize(grpc)
 	return s
+}
+
+// normalize makes the switches consistent (a pure function of the drawn values).
+func (s *Scen) normalize(grpc bool) {
+	if s.FailEvery <= 0 {
+		s.FailEvery, s.FailAt, s.FailKind = 0, "", ""
+		return
+	}
+	if grpc {
+		return
+	}
+	if s.FailKind == "notjson" {
+		// the answer that is not JSON is rejected by var/jsonpath, which only the first step has
+		s.FailAt, s.PostJsonpath = "auth", true
+	}
+	if s.FailAt == "use" {
+		// the target has to know which invocation a `use` request belongs to
+		s.PostJsonpath = true
+	}
 }
 
 // genCase draws a case; r (may be nil) tells which findings are listed as known.
@@ -180,6 +274,13 @@ func genCase(t *rapid.T, r *vf.Run) Case {
 			Format:  rapid.SampledFrom([]string{"uri", "uripost", "raw", "jsonline"}).Draw(t, "format"),
 			Entries: rapid.IntRange(1, 8).Draw(t, "entries"),
 			Preload: rapid.Bool().Draw(t, "preload"),
+		}
+		c.Plain.DateHeader = rapid.SampledFrom([]string{"", "", "default", "X-Stamp"}).Draw(t, "dateMiddleware")
+		switch c.Plain.Format {
+		case "jsonline":
+			c.Plain.Array = rapid.Bool().Draw(t, "jsonArray")
+		case "uri", "uripost":
+			c.Plain.HostHeader = rapid.IntRange(0, 2).Draw(t, "hostHeader") == 0
 		}
 	case kindGRPC:
 		c.Plain = &Plain{Format: "grpcjson", Entries: rapid.IntRange(1, 8).Draw(t, "entries")}
@@ -217,11 +318,24 @@ func steer(c *Case, r *vf.Run) {
 	}
 }
 
+func contains(l []string, v string) bool {
+	for _, x := range l {
+		if x == v {
+			return true
+		}
+	}
+	return false
+}
+
 func (c Case) validate() error {
 	switch c.Kind {
 	case kindHTTP, kindGRPC:
 		if c.Plain == nil || c.Plain.Entries < 1 {
 			return fmt.Errorf("case of kind %s without ammo description", c.Kind)
+		}
+		if p := c.Plain; (p.Array && p.Format != "jsonline") || (p.HostHeader && p.Format != "uri" && p.Format != "uripost") ||
+			(c.Kind == kindGRPC && (p.DateHeader != "" || p.Preload)) {
+			return fmt.Errorf("ammo options that format %s does not have", p.Format)
 		}
 	case kindHTTPScen, kindGRPCScen:
 		if c.Scen == nil {
@@ -229,6 +343,18 @@ func (c Case) validate() error {
 		}
 		if c.Scen.Index != "" && c.Scen.Source == "" {
 			return fmt.Errorf("row index without a rows source")
+		}
+		if s := c.Scen; s.FailEvery > 0 {
+			steps, kinds := []string{"auth", "use"}, []string{"body", "status", "header", "notjson"}
+			if c.Kind == kindGRPCScen {
+				steps, kinds = []string{"auth", "list", "order"}, []string{"payload"}
+			}
+			if !contains(steps, s.FailAt) || !contains(kinds, s.FailKind) {
+				return fmt.Errorf("unsatisfying answers at step %q of kind %q are not defined for %s", s.FailAt, s.FailKind, c.Kind)
+			}
+			if c.Kind == kindHTTPScen && !s.PostJsonpath && (s.FailAt == "use" || s.FailKind == "notjson") {
+				return fmt.Errorf("unsatisfying answers at %q / %q need the var/jsonpath postprocessor", s.FailAt, s.FailKind)
+			}
 		}
 	default:
 		return fmt.Errorf("unknown kind %q", c.Kind)
